@@ -1637,6 +1637,8 @@ def _ordered_merge(left: DataFrame,
             a_on, b_on = right_on_fields, left_on_fields
             a_unique, b_unique = right_keys_unique, left_keys_unique
 
+        # the a-side map is only written when the b side is not hinted unique
+        a_result = None
         if a_unique:
             if b_unique:
                 b_result = dest.create_numeric('_b_map', strdtype)
@@ -1658,15 +1660,20 @@ def _ordered_merge(left: DataFrame,
                 ops.generate_ordered_map_to_left_streamed(
                     a_on[0], b_on[0], a_result, b_result, invalid, rdtype=npdtype)
 
+        # which maps exist is what this call has written, not which names 'dest' happens to hold:
+        # 'dest' may already hold fields called '_a_map', '_left_map' or '_right_map'
         if how == 'right':
-            if "_a_map" in dest:
+            if a_result is not None:
                 dest.rename('_a_map', '_right_map')
             dest.rename('_b_map', '_left_map')
+            has_left_map, has_right_map = True, a_result is not None
         else:
-            if "_a_map" in dest:
+            if a_result is not None:
                 dest.rename('_a_map', '_left_map')
             dest.rename('_b_map', '_right_map')
+            has_left_map, has_right_map = a_result is not None, True
     else:  # how = inner
+        has_left_map, has_right_map = True, True
         left_result = dest.create_numeric('_left_map', strdtype)
         right_result = dest.create_numeric('_right_map', strdtype)
         if left_keys_unique:
@@ -1691,8 +1698,8 @@ def _ordered_merge(left: DataFrame,
     # perform the mappings
     # ====================
 
-    left_map = dest['_left_map'] if '_left_map' in dest else None
-    right_map = dest['_right_map'] if '_right_map' in dest else None
+    left_map = dest['_left_map'] if has_left_map else None
+    right_map = dest['_right_map'] if has_right_map else None
 
     if left_map is None:
         for k in left_fields_to_map:
